@@ -315,7 +315,7 @@ def check(ctx):
         reached, survived = driver_survives(*sit, nm)
         callee = repo.method(MAN, nm, required=False)
         ok = reached and (survived or (callee is not None and whole_body_contained(callee)))
-        ctx.ob("R1", f"{pump.qual}::await-{nm}::contained", ok,
+        ctx.ob("R1", f"driver::await-{nm}::contained", ok,
                f"{pump.qual}: an exception raised by `await self.{nm}(...)` " + ("" if reached else "(the call was not reached from its trigger situation) ") +
                f"is neither caught in the loop nor inside {nm}: it terminates the driver task for good and nothing ever reconnects "
                f"(e.g. GeckoAsyncSpa._connect dereferences self._protocol, which a concurrent reset sets to None)",
